@@ -100,7 +100,76 @@ print(json.dumps(out))
 '''
 
 
+REPLAY_EMITTED = r'''
+import tempfile, importlib.util, os, sys, shutil
+from hugr import ops, tys as ht
+from guppylang_internals.engine import ENGINE
+I = INPUT
+src = """from typing import Generic
+from collections.abc import Callable
+from guppylang import guppy
+from guppylang.std.builtins import array, nat, frozenarray
+from guppylang.std.option import Option
+from guppylang.std.quantum import qubit
+T = guppy.type_var("T", copyable=False, droppable=False)
+@guppy.struct
+class Phantom(Generic[T]):
+    n: int
+@guppy.struct
+class Box(Generic[T]):
+    v: T
+@guppy.struct
+class S:
+    n: int
+    f: float
+@guppy.struct
+class Q:
+    n: int
+    q: qubit
+""" + "".join(f"@guppy.declare\ndef f{k}(x: {t}) -> None: ...\n" for k, t in enumerate(I["types"]))
+d = tempfile.mkdtemp(dir=os.environ.get("TMPDIR", "/var/tmp")); fn = os.path.join(d, "replay_c14e.py"); open(fn, "w").write(src)
+spec = importlib.util.spec_from_file_location("replay_c14e", fn); m = importlib.util.module_from_spec(spec); sys.modules["replay_c14e"] = m
+spec.loader.exec_module(m)
+bad = []; n = 0
+for k, t in enumerate(I["types"]):
+    f = getattr(m, f"f{k}")
+    h = f.compile_function().modules[0]
+    decl = [x for x in h.descendants() if isinstance(h[x].op, (ops.FuncDecl, ops.FuncDefn)) and h[x].op.f_name.endswith(f"f{k}")][0]
+    hugr_copyable = h[decl].op.signature.body.input[0].type_bound() == ht.TypeBound.Copyable
+    gty = ENGINE.get_parsed(f.id).ty.inputs[0].ty
+    n += 1
+    if hugr_copyable != gty.copyable:
+        bad.append({"type": t, "guppy_copyable": gty.copyable, "hugr_type_is_copyable": hugr_copyable})
+shutil.rmtree(d, ignore_errors=True)
+print(json.dumps({"violates": bool(bad), "evaluations": n, "witness": bad[0] if bad else None, "all": bad,
+                  "detail": bad and f"{bad[0]['type']}: Guppy type copyable={bad[0]['guppy_copyable']}, emitted HUGR type copyable={bad[0]['hugr_type_is_copyable']}"}))
+'''
+
+EMITTED_TYPES = ["int", "nat", "float", "bool", "qubit", "array[int, 2]", "array[qubit, 2]", "tuple[int, float]", "tuple[int, qubit]", "tuple[int, array[int, 2]]", "Option[int]", "Option[qubit]",
+                 "Option[array[int, 1]]", "frozenarray[int, 2]", "S", "Q", "Box[int]", "Box[qubit]", "Box[array[int, 2]]", "Box[tuple[int, int]]", "Phantom[int]", "array[S, 2]",
+                 "tuple[S, Box[int]]", "Callable[[qubit], None]", "Callable[[int], int]", "tuple[()]"]
+PHANTOM_TYPES = ["Phantom[qubit]", "Phantom[array[int, 2]]", "tuple[int, Phantom[qubit]]", "Box[Phantom[qubit]]"]
+
+
+def emitted_types(chk):
+    """BOUNDED: the HUGR type the compiler actually EMITS for a Guppy type (to_hugr, read off a compiled
+    declaration) is a copyable HUGR type exactly when the Guppy type is copyable — `hugr_bound` (proved
+    below) is only the compiler's own bookkeeping."""
+    import json
+    from pyvc.report import run_replay
+    for name, tys in (("closed-types", EMITTED_TYPES), ("struct-with-a-phantom-non-copyable-type-argument", PHANTOM_TYPES)):
+        res = run_replay(REPLAY_EMITTED, {"types": tys}, chk.repo, timeout=900)
+        if "evaluations" not in res:
+            chk.undecided(f"bounded:emitted-hugr-type[{name}]", "oracle run failed: " + json.dumps(res)[:600])
+            continue
+        o = chk.bounded_result(f"bounded:emitted-hugr-type[{name}]:copyable-HUGR-type<=>copyable-Guppy-type({len(tys)} types)", not res.get("violates"), res["evaluations"],
+                               detail=res.get("detail") or f"{res['evaluations']} types agree", witness=res.get("witness"), func=f"{TY}:StructType.to_hugr")
+        if res.get("violates"):
+            o.replay.update({"script": REPLAY_EMITTED, "input": {"types": tys}})
+
+
 def run(chk):
+    chk.section("emitted-hugr-types", lambda: emitted_types(chk))
     e = mk_engine(chk)
     for q in ("TypeBase.linear", "TypeBase.affine", "TypeBase.hugr_bound", "ParametrizedTypeBase.copyable", "ParametrizedTypeBase.droppable",
               "ParametrizedTypeBase.hugr_bound", "TupleType.intrinsically_copyable", "TupleType.intrinsically_droppable",
